@@ -15,12 +15,18 @@ use std::sync::Arc;
 
 pub(crate) struct Peer {
     pub(crate) send_queue: ZmqFramedWrite,
+    /// Which registration of its identity this entry is (see `round_robin`).
+    pub(crate) serial: u64,
 }
 
 pub(crate) struct GenericSocketBackend {
     pub(crate) peers: scc::HashMap<PeerIdentity, Peer>,
     fair_queue_inner: Option<Arc<Mutex<QueueInner<ZmqFramedRead, PeerIdentity>>>>,
-    pub(crate) round_robin: SegQueue<PeerIdentity>,
+    /// Rotation of (identity, registration serial). Entries cannot be deleted from the queue,
+    /// and an identity can register again (a peer that comes back): an entry whose serial is
+    /// not the registered peer's is stale and is skipped, so that every peer has one slot.
+    pub(crate) round_robin: SegQueue<(PeerIdentity, u64)>,
+    next_serial: std::sync::atomic::AtomicU64,
     socket_type: SocketType,
     socket_options: SocketOptions,
     pub(crate) socket_monitor: Mutex<Option<mpsc::Sender<SocketEvent>>>,
@@ -36,6 +42,7 @@ impl GenericSocketBackend {
             peers: scc::HashMap::new(),
             fair_queue_inner,
             round_robin: SegQueue::new(),
+            next_serial: std::sync::atomic::AtomicU64::new(0),
             socket_type,
             socket_options: options,
             socket_monitor: Mutex::new(None),
@@ -49,7 +56,7 @@ impl GenericSocketBackend {
         // items from queue. So in such case we'll just pop item and skip it if
         // we don't have a matching peer in peers map
         loop {
-            let next_peer_id = match self.round_robin.pop() {
+            let (next_peer_id, serial) = match self.round_robin.pop() {
                 Some(peer) => peer,
                 None => match message {
                     Message::Greeting(_) => panic!("Sending greeting is not supported"),
@@ -63,12 +70,12 @@ impl GenericSocketBackend {
                 },
             };
             let send_result = match self.peers.get_async(&next_peer_id).await {
-                Some(mut peer) => peer.send_queue.send(message).await,
-                None => continue,
+                Some(mut peer) if peer.serial == serial => peer.send_queue.send(message).await,
+                _ => continue,
             };
             return match send_result {
                 Ok(()) => {
-                    self.round_robin.push(next_peer_id.clone());
+                    self.round_robin.push((next_peer_id.clone(), serial));
                     Ok(next_peer_id)
                 }
                 Err(e) => {
@@ -102,10 +109,13 @@ impl SocketBackend for GenericSocketBackend {
 impl MultiPeerBackend for GenericSocketBackend {
     async fn peer_connected(self: Arc<Self>, peer_id: &PeerIdentity, io: FramedIo) {
         let (recv_queue, send_queue) = io.into_parts();
+        let serial = self
+            .next_serial
+            .fetch_add(1, std::sync::atomic::Ordering::Relaxed);
         self.peers
-            .upsert_async(peer_id.clone(), Peer { send_queue })
+            .upsert_async(peer_id.clone(), Peer { send_queue, serial })
             .await;
-        self.round_robin.push(peer_id.clone());
+        self.round_robin.push((peer_id.clone(), serial));
         match &self.fair_queue_inner {
             None => {}
             Some(inner) => {
